@@ -6,6 +6,9 @@ import (
 	"encoding/hex"
 	"hash"
 	"net"
+	"os"
+	"strconv"
+	"sync/atomic"
 
 	rpc "github.com/hslam/rpc"
 )
@@ -15,15 +18,27 @@ type tlsConfigT = tls.Config
 func serverTLS() *tls.Config { return rpc.DefalutServerTLSConfig() }
 func clientTLS() *tls.Config { return rpc.SkipVerifyTLSConfig() }
 
-// freeTCPAddr asks the kernel for an unused loopback port (never handed out twice in a row).
+// freeTCPAddr hands out a loopback port for a server of this process. Asking the kernel for "an unused port" (listen on :0, close,
+// listen again) is not safe between the worker processes that run side by side: two of them were given the same port, and a
+// client then talked to the other worker's server. Ports are therefore taken from below the ephemeral range (no outgoing
+// connection ever occupies them), from a window that depends on the process id, never twice within a process, and each is
+// probed before use; the caller still checks that its own Listen succeeded.
+var portCounter int64
+
 func freeTCPAddr() string {
-	l, err := net.Listen("tcp", "127.0.0.1:0")
-	if err != nil {
-		return "127.0.0.1:0"
+	base := (os.Getpid() % 110) * 200
+	for try := 0; try < 400; try++ {
+		k := int(atomic.AddInt64(&portCounter, 1))
+		port := 10000 + (base+k)%22000
+		a := "127.0.0.1:" + strconv.Itoa(port)
+		l, err := net.Listen("tcp", a)
+		if err != nil {
+			continue
+		}
+		l.Close()
+		return a
 	}
-	a := l.Addr().String()
-	l.Close()
-	return a
+	return "127.0.0.1:0"
 }
 
 type dig struct{ h hash.Hash }
